@@ -85,7 +85,7 @@ type lexer struct {
 	tag      struct {      // current tag
 		name  string      // name
 		attr  string      // current attribute name
-		index int         // index of first byte of the current attribute value in src
+		index int         // index of first byte of the current attribute value in text
 		ctx   ast.Context // context of the tag's content
 	}
 	rawMarker      []byte     // raw marker, not nil when a raw statement has been lexed
@@ -410,7 +410,7 @@ func (l *lexer) scan() {
 								lin = l.line
 								col = l.column
 							} else {
-								l.tag.index = p
+								l.tag.index = len(l.text) - len(l.src) + p
 								if quote == 0 {
 									l.ctx = ast.ContextUnquotedAttr
 								} else {
@@ -439,7 +439,7 @@ func (l *lexer) scan() {
 					} else if l.tag.attr == "type" {
 						switch l.tag.name {
 						case "script":
-							typ := l.src[l.tag.index:p]
+							typ := l.text[l.tag.index : len(l.text)-len(l.src)+p]
 							if bytes.Equal(typ, moduleType) {
 								break
 							}
@@ -452,7 +452,7 @@ func (l *lexer) scan() {
 								}
 							}
 						case "style":
-							if typ := bytes.TrimSpace(l.src[l.tag.index:p]); len(typ) > 0 {
+							if typ := bytes.TrimSpace(l.text[l.tag.index : len(l.text)-len(l.src)+p]); len(typ) > 0 {
 								if !bytes.EqualFold(typ, cssMimeType) {
 									l.tag.ctx = fileContext
 								}
